@@ -31,9 +31,16 @@ struct opts
 template <class Cat, class Want> inline constexpr bool at_least = std::is_base_of_v<Want, Cat>;
 
 // Key: totally ordered, equality comparable value that identifies an element (integer or pair of integers).
-template <class It, class Key, class KeyOf>
-void check(std::string const &name, It const &b, It const &e, std::vector<Key> const &model, KeyOf keyof, opts const o)
+//
+// The range is given by two factories that return a *fresh* begin / end iterator on every call (r.begin(), r.end()).
+// For iterators of the input category no iterator is used after a copy of it has been incremented (copies of an
+// advanced input iterator need not stay valid): every position is reached by its own walk from a fresh begin().
+// Multi-pass use of saved copies is confined to the blocks guarded by `fwd`.
+template <class MakeBegin, class MakeEnd, class Key, class KeyOf>
+void check_fresh(std::string const &name, MakeBegin mkb, MakeEnd mke, std::vector<Key> const &model, KeyOf keyof, opts const o)
 {
+  using It = std::remove_cv_t<std::remove_reference_t<decltype(mkb())>>;
+  It const b(mkb()), e(mke()); // never incremented, only compared (and handed to std algorithms in the fwd blocks)
   using traits = std::iterator_traits<It>;
   using cat = typename traits::iterator_category;
   using diff = typename traits::difference_type;
@@ -46,15 +53,17 @@ void check(std::string const &name, It const &b, It const &e, std::vector<Key> c
   auto const sz = [](std::size_t v) { return static_cast<unsigned long>(v); };
 
   // ---------------------------------------------------------------- (1) equality laws
-  std::vector<It> pos; // an iterator for every position 0..n (n = end)
-  pos.reserve(n + 1);
+  // a fresh iterator standing on position i (its own walk from a fresh begin)
+  auto at = [&](std::size_t i) {
+    It it(mkb());
+    for (std::size_t k = 0; k < i; ++k)
+      ++it;
+    return it;
+  };
   {
-    It it(b);
-    for (std::size_t i = 0;; ++i)
+    It it(mkb());
+    for (std::size_t i = 0; i < n; ++i)
     {
-      pos.push_back(it);
-      if (i == n)
-        break;
       if (it == e)
       {
         vrt::fail(P + "short", vrt::fmt("end reached at position %lu of %lu", sz(i), sz(n)));
@@ -63,6 +72,10 @@ void check(std::string const &name, It const &b, It const &e, std::vector<Key> c
       ++it;
     }
   }
+  std::vector<It> pos; // an iterator for every position 0..n (n = end)
+  pos.reserve(n + 1);
+  for (std::size_t i = 0; i <= n; ++i)
+    pos.push_back(at(i));
   auto index_of = [&](It const &x) -> std::size_t { // position of an iterator, n+1 if none
     for (std::size_t i = 0; i <= n; ++i)
       if (pos[i] == x)
@@ -110,7 +123,7 @@ void check(std::string const &name, It const &b, It const &e, std::vector<Key> c
   }
   // loops written with the end on the left terminate after n steps and see the elements
   {
-    It it(b);
+    It it(mkb());
     std::size_t steps = 0;
     bool elems = true;
     while (e != it && steps < fuel)
@@ -122,7 +135,7 @@ void check(std::string const &name, It const &b, It const &e, std::vector<Key> c
     }
     VRT_CHECK(steps == n, P + "loop_end_ne_it", "`end != it` loop made %lu steps, want %lu", sz(steps), sz(n));
     VRT_CHECK(elems, P + "loop_end_ne_it:element", "`end != it` loop saw a wrong element");
-    It it2(b);
+    It it2(mkb());
     steps = 0;
     while (!(e == it2) && steps < fuel)
     {
@@ -130,7 +143,7 @@ void check(std::string const &name, It const &b, It const &e, std::vector<Key> c
       ++steps;
     }
     VRT_CHECK(steps == n, P + "loop_not_end_eq_it", "`!(end == it)` loop made %lu steps, want %lu", sz(steps), sz(n));
-    It it3(b);
+    It it3(mkb());
     steps = 0;
     while (!(it3 == e) && steps < fuel)
     {
@@ -143,8 +156,7 @@ void check(std::string const &name, It const &b, It const &e, std::vector<Key> c
     return; // the remaining laws are phrased with == and would only repeat the finding
 
   // walking from a copy of `from` (position k) yields model[k..] and stops at end
-  auto walk_rest = [&](It const &from, std::size_t k, char const *what) {
-    It w(from);
+  auto walk_rest = [&](It w, std::size_t k, char const *what) { // walks the iterator it is given (by value)
     std::size_t i = k;
     while (i < n)
     {
@@ -187,13 +199,15 @@ void check(std::string const &name, It const &b, It const &e, std::vector<Key> c
   // ---------------------------------------------------------------- (3) reference stability
   if constexpr (fwd)
   {
-    static_assert(std::is_reference_v<typename traits::reference>, "forward iterators have real references");
+    // (Cpp17ForwardIterator asks for a real reference type; this is a typedef matter -- recorded, not judged)
+    if (!std::is_reference_v<typename traits::reference>)
+      vrt::count("info:" + name + ":proto:forward_category_without_reference_type");
   }
   if (fwd || o.value_reference)
   {
     bool stable = true;
     {
-      It it(b);
+      It it(mkb());
       for (std::size_t i = 0; i < n; ++i)
       {
         auto &&x = *it; // a value (lifetime extended) or a reference to an element that outlives the step
@@ -211,7 +225,7 @@ void check(std::string const &name, It const &b, It const &e, std::vector<Key> c
     if (stable) // (a reference into the iterator itself would now be read after free: only when the above held)
       for (std::size_t i = 0; i < n; ++i)
       {
-        std::unique_ptr<It> p(new It(b));
+        std::unique_ptr<It> p(new It(mkb()));
         for (std::size_t k = 0; k < i; ++k)
           ++*p;
         auto &&x = **p;
@@ -338,32 +352,56 @@ void check(std::string const &name, It const &b, It const &e, std::vector<Key> c
     It d1{}, d2{};
     VRT_CHECK(d1 == d2 && !(d1 != d2), P + "value_initialized", "two value-initialised iterators differ");
   }
-  for (std::size_t i = 0; i <= (fwd ? n : 0); ++i) // input iterators: only a copy of begin is walked again
+  // every source is a fresh iterator (at(i)) that is compared *before* the assigned/moved-to object is walked:
+  // what is asserted is CopyAssignable / MoveAssignable / MoveConstructible / Swappable ("the target is equivalent to
+  // the value of the source before the operation"); the state of a moved-from iterator is never looked at
+  for (std::size_t i = 0; i <= (fwd ? n : 0); ++i) // input iterators: only begin
   {
-    It a(b);
-    It &r = (a = pos[i]);
-    VRT_CHECK(&r == &a && a == pos[i] && pos[i] == a, P + "copy_assign", "copy-assigned iterator differs from its source (%lu of %lu)", sz(i), sz(n));
-    walk_rest(a, i, "copy_assign:walk");
+    {
+      It const src(at(i));
+      It a(mkb());
+      It &r = (a = src);
+      VRT_CHECK(&r == &a && a == src && src == a, P + "copy_assign", "copy-assigned iterator differs from its source (%lu of %lu)", sz(i), sz(n));
+      walk_rest(std::move(a), i, "copy_assign:walk");
+    }
     if constexpr (std::is_default_constructible_v<It>)
     {
+      It const src(at(i));
       It z{};
-      z = pos[i];
-      VRT_CHECK(z == pos[i], P + "default_then_assign", "default-constructed then assigned iterator differs (%lu of %lu)", sz(i), sz(n));
-      walk_rest(z, i, "default_then_assign:walk");
+      z = src;
+      VRT_CHECK(z == src, P + "default_then_assign", "default-constructed then assigned iterator differs (%lu of %lu)", sz(i), sz(n));
+      walk_rest(std::move(z), i, "default_then_assign:walk");
     }
-    It tmp(pos[i]);
-    It m(b);
-    m = std::move(tmp);
-    VRT_CHECK(m == pos[i], P + "move_assign", "move-assigned iterator differs from its source (%lu of %lu)", sz(i), sz(n));
-    walk_rest(m, i, "move_assign:walk");
-    It tmp2(pos[i]);
-    It const mc(std::move(tmp2));
-    VRT_CHECK(mc == pos[i], P + "move_construct", "move-constructed iterator differs from its source (%lu of %lu)", sz(i), sz(n));
-    walk_rest(mc, i, "move_construct:walk");
-    It s1(pos[i]), s2(b);
-    using std::swap;
-    swap(s1, s2);
-    VRT_CHECK(s1 == b && s2 == pos[i], P + "swap", "swap of two iterators wrong (%lu of %lu)", sz(i), sz(n));
+    {
+      It const same(at(i));
+      It tmp(at(i));
+      It m(mkb());
+      m = std::move(tmp);
+      VRT_CHECK(m == same, P + "move_assign", "move-assigned iterator differs from its source (%lu of %lu)", sz(i), sz(n));
+      walk_rest(std::move(m), i, "move_assign:walk");
+    }
+    {
+      It const same(at(i));
+      It tmp2(at(i));
+      It mc(std::move(tmp2));
+      VRT_CHECK(mc == same, P + "move_construct", "move-constructed iterator differs from its source (%lu of %lu)", sz(i), sz(n));
+      walk_rest(std::move(mc), i, "move_construct:walk");
+    }
+    {
+      It const same(at(i));
+      It s1(at(i)), s2(mkb());
+      using std::swap;
+      swap(s1, s2);
+      VRT_CHECK(s1 == b && s2 == same, P + "swap", "swap of two iterators wrong (%lu of %lu)", sz(i), sz(n));
+    }
   }
+}
+
+// ranges given by two iterators: copies of them serve as fresh begin/end (the callers use this form for forward or
+// stronger iterators only, where copies are independent by the multi-pass guarantee)
+template <class It, class Key, class KeyOf>
+void check(std::string const &name, It const &b, It const &e, std::vector<Key> const &model, KeyOf keyof, opts const o)
+{
+  check_fresh(name, [&b] { return b; }, [&e] { return e; }, model, keyof, o);
 }
 }
